@@ -4,12 +4,13 @@
 quick/thorough: random histories.  Each history builds a window tree (overlapping siblings, nesting, windows partly
 outside their parent, hidden subtrees, stealing windows, LOWEST / ROOT_PARENT placement), binds key and mouse
 handlers whose behaviour tables claim or decline and (in `mutating` histories) close / unref / hide / restack /
-focus / steal from inside the handler, places the focus, and then sends key events and press / drag / release /
+focus / steal / set_geometry (g<id>@dt@dl@dn@dc: move or resize a window) from inside the handler, places the focus, and then sends key events and press / drag / release /
 wheel sequences at cells on and around window corners, interleaved with top-level tree operations and flushes.
 A DRAG is never sent before the first PRESS of a history (the press memory is uninitialised before: assumption).
 Handlers may be bound one-shot (`ko` / `mo`) and entries may unbind their own binding (`!`); mouse gestures also arrive
 as X10-encoded bytes (`x10`: wheel turns before and inside drags, second buttons, the button-less release, bare motion,
-reports libtermkey cannot classify).  Templates: stack, drag, chain, oneshot (handlers that leave the list they are run
+reports libtermkey cannot classify).  Templates: move (a window that moves itself, its parent or a neighbour from inside
+its mouse handler and lets the event through, or claims DRAG while another window is the drag source), stack, drag, chain, oneshot (handlers that leave the list they are run
 from and hand the focus over from inside the dispatch), x10 (byte gestures over a small tree).
 
 exhaustive: three fixed trees x every cell of the terminal x {press, wheel, press-drag-release to a second cell} x
